@@ -94,13 +94,22 @@ static void covl(long c) { int P = 1 + c % 3; c /= 3; int ov = (int)(c % 30); c 
     for (int i : want) if (hits[i] != 1) vf_fail("parallel_for overload %d: index %d visited %d times", ov, i, hits[i]);
     vf_outcome("ovl %d P=%d n=%d steals=%ld", ov, P, n, vtbb::stats().steals); }
 // ---- parallel_for_each
+static int inv_hits[10]; template <int I> static void fi() { inv_hits[I]++; vtbb::nested(); vtbb::interleave(); }
+// every overload of parallel_for_each (iterator pair / container / const container, with and without a context) and parallel_invoke with a trailing context
+static void cfeovl(long c) { int P = 1 + c % 3; c /= 3; int ov = (int)(c % 7); c /= 7; int n = (int)(c % 5); vtbb::init(P); std::map<int, int> hits; tbb::task_group_context ctx; std::vector<int> v; for (int i = 0; i < n; i++) v.push_back(i); const std::vector<int>& cv = v;
+    auto body = [&](int x) { hits[x]++; vtbb::interleave(); };
+    if (ov == 0) tbb::parallel_for_each(v.begin(), v.end(), body); else if (ov == 1) tbb::parallel_for_each(v.begin(), v.end(), body, ctx); else if (ov == 2) tbb::parallel_for_each(v, body); else if (ov == 3) tbb::parallel_for_each(v, body, ctx);
+    else if (ov == 4) tbb::parallel_for_each(cv, body); else if (ov == 5) tbb::parallel_for_each(cv, body, ctx);
+    else { for (int i = 0; i < 10; i++) inv_hits[i] = 0; if (n < 2) n = 2; switch (n) { case 2: tbb::parallel_invoke(fi<0>, fi<1>, ctx); break; case 3: tbb::parallel_invoke(fi<0>, fi<1>, fi<2>, ctx); break; default: tbb::parallel_invoke(fi<0>, fi<1>, fi<2>, fi<3>, ctx); n = 4; }
+        vtbb::finish(); for (int i = 0; i < 10; i++) if (inv_hits[i] != (i < n)) vf_fail("parallel_invoke(..., context) of %d functions: function %d ran %d times", n, i, inv_hits[i]); vf_outcome("invoke-ctx n=%d", n); return; }
+    vtbb::finish(); if ((int)hits.size() != n) vf_fail("parallel_for_each overload %d: %zu of %d items processed", ov, hits.size(), n); for (auto& kv : hits) if (kv.second != 1) vf_fail("parallel_for_each overload %d: item %d processed %d times", ov, kv.first, kv.second);
+    vf_outcome("for_each-ovl %d P=%d n=%d", ov, P, n); }
 static void cfe(long c) { int P = 1 + c % 3; c /= 3; int fwd = c % 2; c /= 2; int n = c % 6; c /= 6; int feed = c % 3;   // each item < feed adds item+10 (one level)
     vtbb::init(P); std::map<int, int> hits; auto body = [&](int x, tbb::feeder<int>& fd) { hits[x]++; if (x < feed) fd.add(x + 10); vtbb::nested(); vtbb::interleave(); };
     if (fwd) { std::forward_list<int> l; for (int i = n - 1; i >= 0; i--) l.push_front(i); tbb::parallel_for_each(l.begin(), l.end(), body); } else { std::vector<int> v; for (int i = 0; i < n; i++) v.push_back(i); tbb::parallel_for_each(v.begin(), v.end(), body); }
     vtbb::finish(); int want = n + (feed < n ? feed : n); if ((int)hits.size() != want) vf_fail("parallel_for_each: %zu distinct items processed, expected %d", hits.size(), want); for (auto& kv : hits) if (kv.second != 1) vf_fail("parallel_for_each: item %d processed %d times", kv.first, kv.second);
     vf_outcome("for_each P=%d %s n=%d feed=%d steals=%ld", P, fwd ? "forward" : "random", n, feed, vtbb::stats().steals); }
 // ---- parallel_invoke
-static int inv_hits[10]; template <int I> static void fi() { inv_hits[I]++; vtbb::nested(); vtbb::interleave(); }
 static void cinv(long c) { int P = 1 + c % 3; c /= 3; int n = 2 + c % 9; vtbb::init(P); for (int i = 0; i < 10; i++) inv_hits[i] = 0;
     switch (n) { case 2: tbb::parallel_invoke(fi<0>, fi<1>); break; case 3: tbb::parallel_invoke(fi<0>, fi<1>, fi<2>); break; case 4: tbb::parallel_invoke(fi<0>, fi<1>, fi<2>, fi<3>); break; case 5: tbb::parallel_invoke(fi<0>, fi<1>, fi<2>, fi<3>, fi<4>); break;
         case 6: tbb::parallel_invoke(fi<0>, fi<1>, fi<2>, fi<3>, fi<4>, fi<5>); break; case 7: tbb::parallel_invoke(fi<0>, fi<1>, fi<2>, fi<3>, fi<4>, fi<5>, fi<6>); break; case 8: tbb::parallel_invoke(fi<0>, fi<1>, fi<2>, fi<3>, fi<4>, fi<5>, fi<6>, fi<7>); break;
@@ -110,10 +119,10 @@ static void cinv(long c) { int P = 1 + c % 3; c /= 3; int n = 2 + c % 9; vtbb::i
 struct Solid { int b, e; bool empty() const { return b >= e; } bool is_divisible() const { return false; } Solid(int b_, int e_) : b(b_), e(e_) {} Solid(Solid&, tbb::split) : b(0), e(0) { vf_fail("a range whose is_divisible() is false was split"); } };
 static void csolid(long c) { int part = c % 4; c /= 4; int P = 1 + c % 3; vtbb::init(P); int calls = 0; with_part(part, [&](auto& p) { tbb::parallel_for(Solid(0, 7), [&](const Solid& r) { calls++; if (r.b != 0 || r.e != 7) vf_fail("indivisible range changed"); }, p); }); vtbb::finish(); if (calls != 1) vf_fail("indivisible range: body called %d times", calls); vf_outcome("solid part=%d P=%d", part, P); }
 typedef void (*Fn)(long);
-static Fn fns[] = {c2d, c3d, cnd, chuge, cstr, cspan, c2dhuge, covl, cfe, cinv, csolid};
+static Fn fns[] = {c2d, c3d, cnd, chuge, cstr, cspan, c2dhuge, covl, cfeovl, cfe, cinv, csolid};
 static void scenario(long c) { for (size_t i = 0; i < blocks.size(); i++) if (c < starts[i] + blocks[i].count) { fns[i](c - starts[i]); return; } }
 int main(int argc, char** argv) {
-    blocks = {{"2d", 4L * 3 * 5 * 5 * 4}, {"3d", 4L * 2 * 4 * 4 * 3}, {"nd", 4L * 2 * 4 * 4 * 2}, {"huge", 4L * 3 * 7 * 3}, {"strided", 2L * 4 * 4 * 9 * 4}, {"span", 2L * (9180 + 3 * 120)}, {"2dhuge", 4L * 3 * 8}, {"overloads", 3L * 30 * 7}, {"for_each", 3L * 2 * 6 * 3}, {"invoke", 3L * 9}, {"solid", 4L * 3}};
+    blocks = {{"2d", 4L * 3 * 5 * 5 * 4}, {"3d", 4L * 2 * 4 * 4 * 3}, {"nd", 4L * 2 * 4 * 4 * 2}, {"huge", 4L * 3 * 7 * 3}, {"strided", 2L * 4 * 4 * 9 * 4}, {"span", 2L * (9180 + 3 * 120)}, {"2dhuge", 4L * 3 * 8}, {"overloads", 3L * 30 * 7}, {"fe-overloads", 3L * 7 * 5}, {"for_each", 3L * 2 * 6 * 3}, {"invoke", 3L * 9}, {"solid", 4L * 3}};
     long s = 0; for (auto& b : blocks) { starts.push_back(s); s += b.count; }
     return vf_main_cases(argc, argv, s, scenario);
 }
